@@ -2,69 +2,8 @@
    list of registered grants), presentations, grants, configurations and both routers; the
    proofs are case analyses of the guard functions, the grant list stays abstract. *)
 From OIDC Require Import Lib C05_Model C05_spec.
-
-(* the grant list is only consulted through [registered] *)
-Global Opaque registered.
-
-(* the one recorded gap (finding Fxx-C05-4): the Provider router's device_code handler does
-   not consult the grant registration *)
-Definition known_gap (i : input) : bool :=
-  match i_router i, i_endpoint i, i_grant i with
-  | RProvider, EToken, GDevice => negb (registered (i_reg i) GDevice)
-  | _, _, _ => false
-  end.
-
-(* the same gap when the request names the second client Y and acts for it *)
-Definition other_gap (i : input) : bool :=
-  match i_router i, i_endpoint i, i_grant i with
-  | RProvider, EToken, GDevice =>
-      match names_other_client (i_pres i) with
-      | Some v => negb (registered (victim_reg v) GDevice)
-      | None => false
-      end
-  | _, _, _ => false
-  end.
-
-Definition success (o : observed) : bool :=
-  match o with ORes S2 _ _ _ _ => true | _ => false end.
-
-(* split on whatever the goal still branches on *)
-Ltac unfold_defs :=
-  unfold authenticate, p_token, p_code, p_refresh, p_cc, p_te, p_bearer, p_device, p_introspect, p_revoke,
-    p_device_authz, l_token, l_with_client, l_parse, l_verify_client, l_introspect, l_revoke, l_device_authz, nobody_reg, names_nobody,
-    private_jwt, by_secret, client_id_from_request, device_client_authenticated, parse_creds, secret_check, cc_secret_check, secret_ok,
-    cc_secret_ok, storage_secret_ok, assertion_opt_ok, assertion_ok, nonempty, bearer_ok, r4, r5, read_grant, visible, seen, src_dispatch_p, src_dispatch_l,
-    src_with_client, src_verify_client, src_client, src_artefact, src_device_code_p,
-    other_justified, justified, victim_of, by_grant_assertion,
-    token_justified, cred_valid, authenticated, introspect_justified, revoke_justified, device_authz_justified,
-    refusal_shape in *.
-
-Ltac split_goal :=
-  cbn; unfold_defs;
-  repeat (cbn;
-    match goal with
-    | |- context [andb ?b _] => is_var b; destruct b
-    | |- context [andb _ ?b] => is_var b; destruct b
-    | |- context [negb ?b] => is_var b; destruct b
-    | |- context [if ?b then _ else _] => is_var b; destruct b
-    | |- context [if ?b then _ else _] => destruct b eqn:?
-    | |- context [match ?x with _ => _ end] => destruct x eqn:?
-    end);
-  cbn in *; intros;
-  repeat match goal with
-         | H : context [negb ?b] |- _ => is_var b; destruct b; cbn in *
-         | H : context [andb ?b _] |- _ => is_var b; destruct b; cbn in *
-         end;
-  repeat match goal with
-         | H : negb _ = false |- _ => apply negb_false_iff in H
-         | H : negb _ = true |- _ => apply negb_true_iff in H
-         end;
-  repeat match goal with H : registered ?a ?b = _ |- context [registered ?a ?b] => rewrite H end;
-  cbn; try reflexivity; try discriminate; try congruence.
-
-Ltac open_input i :=
-  destruct i as [r e c rg p g pl pv]; destruct pl as [gp cp ap]; destruct c as [fpost fpk fref ccc cte cdev];
-  destruct rg as [known meth app gs key].
+From OIDC Require Export C05_base_proofs.
+From OIDC Require Import C05_token_RProvider_proofs C05_token_RLegacy_proofs C05_shape_RProvider_proofs C05_shape_RLegacy_proofs.
 
 (* ---------------- success is justified *)
 
@@ -72,11 +11,9 @@ Lemma token_success_justified : forall i,
   i_endpoint i = EToken -> known_gap i = false -> names_other (i_pres i) = false ->
   success (model i) = true -> token_justified (i_cfg i) (i_reg i) (i_pres i) (i_grant i) = true.
 Proof.
-  intro i; open_input i; cbn [i_endpoint i_cfg i_reg i_pres i_grant i_router i_pl i_prev].
-  all: intros -> Hgap Hno.
-  all: unfold model, known_gap in *; cbn [i_endpoint i_cfg i_reg i_pres i_grant i_router i_pl i_prev] in *.
-  all: destruct p as [| |[] ?| |[]|[]| | | |[] []|?|?|?|?|?|[] []]; try discriminate Hno; clear Hno.
-  all: destruct r, g; cbn in Hgap |- *; destruct meth; cbn in Hgap |- *; split_goal.
+  intro i. destruct (i_router i) eqn:E.
+  - now apply token_success_justified_RProvider.
+  - now apply token_success_justified_RLegacy.
 Qed.
 
 (* in the gap class everything but the registration of the device grant is still enforced *)
@@ -90,7 +27,7 @@ Proof.
   all: intros -> Hgap Hno.
   all: unfold model, known_gap in *; cbn [i_endpoint i_cfg i_reg i_pres i_grant i_router i_pl i_prev] in *.
   all: destruct r, g; try discriminate Hgap.
-  all: destruct p as [| |[] ?| |[]|[]| | | |[] []|?|?|?|?|?|[] []]; try discriminate Hno; clear Hno.
+  all: destruct p as [| |[] ?| |[]|[]|[]| | | |[] []|?|?|?|?|?|[] []]; try discriminate Hno; clear Hno.
   all: destruct meth; cbn; split_goal; split; reflexivity.
 Qed.
 
@@ -100,7 +37,7 @@ Lemma introspect_success_justified : forall i,
 Proof.
   intro i; open_input i; cbn [i_endpoint i_cfg i_reg i_pres i_grant i_router i_pl i_prev].
   all: intros -> Hno; unfold model; cbn [i_endpoint i_cfg i_reg i_pres i_grant i_router i_pl i_prev] in *.
-  all: destruct p as [| |[] ?| |[]|[]| | | |[] []|?|?|?|?|?|[] []]; try discriminate Hno; clear Hno.
+  all: destruct p as [| |[] ?| |[]|[]|[]| | | |[] []|?|?|?|?|?|[] []]; try discriminate Hno; clear Hno.
   all: destruct r, meth; cbn; split_goal.
 Qed.
 
@@ -110,7 +47,7 @@ Lemma revoke_success_justified : forall i,
 Proof.
   intro i; open_input i; cbn [i_endpoint i_cfg i_reg i_pres i_grant i_router i_pl i_prev].
   all: intros -> Hno; unfold model; cbn [i_endpoint i_cfg i_reg i_pres i_grant i_router i_pl i_prev] in *.
-  all: destruct p as [| |[] ?| |[]|[]| | | |[] []|?|?|?|?|?|[] []]; try discriminate Hno; clear Hno.
+  all: destruct p as [| |[] ?| |[]|[]|[]| | | |[] []|?|?|?|?|?|[] []]; try discriminate Hno; clear Hno.
   all: destruct r, meth; cbn; split_goal.
 Qed.
 
@@ -120,7 +57,7 @@ Lemma device_authz_success_justified : forall i,
 Proof.
   intro i; open_input i; cbn [i_endpoint i_cfg i_reg i_pres i_grant i_router i_pl i_prev].
   all: intros -> Hno; unfold model; cbn [i_endpoint i_cfg i_reg i_pres i_grant i_router i_pl i_prev] in *.
-  all: destruct p as [| |[] ?| |[]|[]| | | |[] []|?|?|?|?|?|[] []]; try discriminate Hno; clear Hno.
+  all: destruct p as [| |[] ?| |[]|[]|[]| | | |[] []|?|?|?|?|?|[] []]; try discriminate Hno; clear Hno.
   all: destruct r, meth; cbn; split_goal.
 Qed.
 
@@ -134,9 +71,9 @@ Lemma refusal_shape_model : forall i,
   | _ => False
   end.
 Proof.
-  intro i; open_input i; unfold model; cbn [i_endpoint i_cfg i_reg i_pres i_grant i_router i_pl i_prev].
-  all: destruct e; [destruct g| | |]; destruct r;
-    destruct p as [| |[] ?| |[]|[]| | | |[] []|?|?|[[] ?]|[[] ?]|[[] ?]|[] []], meth; cbn; split_goal.
+  intro i. destruct (i_router i) eqn:E.
+  - now apply refusal_shape_model_RProvider.
+  - now apply refusal_shape_model_RLegacy.
 Qed.
 
 Lemma self_never_other : forall i,
@@ -159,7 +96,7 @@ Proof.
   2:{ intros _. pose proof (self_never_other i En) as H.
       destruct (model i) as [s e tok act w| |]; try exact I. destruct s, w; try exact I; contradiction. }
   revert En; open_input i; cbn [i_pres]; intro En.
-  all: destruct p as [| |[] ?| |[]|[]| | | |[] []|?|?|[[] ?]|[[] ?]|[[] ?]|[] []]; try discriminate En; clear En.
+  all: destruct p as [| |[] ?| |[]|[]|[]| | | |[] []|?|?|[[] ?]|[[] ?]|[[] ?]|[] []]; try discriminate En; clear En.
   all: unfold model, other_gap; cbn [i_endpoint i_cfg i_reg i_pres i_grant i_router i_pl i_prev].
   all: destruct e; [destruct g| | |]; destruct r; cbn; intro Hgap; split_goal; try exact I.
 Qed.
@@ -188,7 +125,7 @@ Lemma names_other_model : forall i,
   end.
 Proof.
   intro i; open_input i; cbn [i_pres]; intro Hno.
-  all: destruct p as [| |[] ?| |[]|[]| | | |[] []|?|?|[[] ?]|[[] ?]|[[] ?]|[] []]; try discriminate Hno; clear Hno.
+  all: destruct p as [| |[] ?| |[]|[]|[]| | | |[] []|?|?|[[] ?]|[[] ?]|[[] ?]|[] []]; try discriminate Hno; clear Hno.
   all: unfold model; cbn [i_endpoint i_cfg i_reg i_pres i_grant i_router i_pl i_prev].
   all: destruct e; [destruct g| | |]; destruct r; cbn; split_goal; exact I.
 Qed.
@@ -208,7 +145,7 @@ Proof.
 Qed.
 
 Definition gap_witness : input :=
-  mkInput RProvider EToken (mkCfg true true true true true true)
+  mkInput RProvider EToken (mkCfg true true true true true true true)
           (mkReg true MNone ANative [GCode; GRefresh] false) PIdOnly GDevice (mkPl GPBody InBody InBody) NoPrev.
 
 Lemma spec_model_refuted : exists i, spec i (model i) = false.
@@ -240,7 +177,7 @@ Qed.
 Lemma token_refuted : ~ token_statement.
 Proof.
   intro H.
-  specialize (H RProvider (mkCfg true true true true true true)
+  specialize (H RProvider (mkCfg true true true true true true true)
                 (mkReg true MNone ANative [GCode; GRefresh] false) PIdOnly GDevice (mkPl GPBody InBody InBody) NoPrev).
   vm_compute in H. specialize (H eq_refl eq_refl). discriminate H.
 Qed.
@@ -476,7 +413,7 @@ Proof.
   destruct (success (model (mkInput r e c rg p g pl pv))) eqn:Hs; [|reflexivity].
   assert (Hno : names_other p = false) by (destruct p; try discriminate Hh; reflexivity).
   assert (Hp : presents_right_secret p = false)
-    by (destruct p as [| |[] ?| |[]|[]| | | |[] []|?|?|?|?|?|[] []]; try discriminate Hh; reflexivity).
+    by (destruct p as [| |[] ?| |[]|[]|[]| | | |[] []|?|?|?|?|?|[] []]; try discriminate Hh; reflexivity).
   assert (Ha : presents_ok_assertion p = false) by (destruct p; try discriminate Hh; reflexivity).
   destruct He as [->|[-> Hg]].
   - pose proof (introspect_statement r c rg p g pl pv Hno Hs) as H.
@@ -491,7 +428,7 @@ Qed.
 (* ---------------- non-vacuity: success is reachable on every endpoint and router *)
 
 Definition std_pl := mkPl GPBody InBody InBody.
-Definition all_on := mkCfg true true true true true true.
+Definition all_on := mkCfg true true true true true true true.
 
 Example token_nonvacuous :
   forallb (fun r => forallb (fun g =>
